@@ -295,7 +295,11 @@ func catalogue() []recipe {
 		if !ok {
 			return false
 		}
-		addTx(d, x.spend(c, 0, func(tx *wire.MsgTx) { tx.LockTime = uint32(d.Height - 1); tx.TxIn[0].Sequence = 0xfffffffe; tx.Version = 1 }), 0)
+		addTx(d, x.spend(c, 0, func(tx *wire.MsgTx) {
+			tx.LockTime = uint32(d.Height - 1)
+			tx.TxIn[0].Sequence = 0xfffffffe
+			tx.Version = 1
+		}), 0)
 		return true
 	})
 	add("locktime:height-nonfinal", E, "bc:unfinalized", func(x *ctx, d *chaingen.Draft) bool {
@@ -319,7 +323,11 @@ func catalogue() []recipe {
 		if !ok || !x.g.Witness {
 			return false
 		}
-		addTx(d, x.spend(c, 0, func(tx *wire.MsgTx) { tx.LockTime = uint32(d.Parent.MTP() - 1); tx.TxIn[0].Sequence = 0xfffffffe; tx.Version = 1 }), 0)
+		addTx(d, x.spend(c, 0, func(tx *wire.MsgTx) {
+			tx.LockTime = uint32(d.Parent.MTP() - 1)
+			tx.TxIn[0].Sequence = 0xfffffffe
+			tx.Version = 1
+		}), 0)
 		return true
 	})
 	add("locktime:mtp", E, "bc:unfinalized", func(x *ctx, d *chaingen.Draft) bool {
@@ -327,7 +335,11 @@ func catalogue() []recipe {
 		if !ok || !x.g.Witness {
 			return false
 		}
-		addTx(d, x.spend(c, 0, func(tx *wire.MsgTx) { tx.LockTime = uint32(d.Parent.MTP()); tx.TxIn[0].Sequence = 0xfffffffe; tx.Version = 1 }), 0)
+		addTx(d, x.spend(c, 0, func(tx *wire.MsgTx) {
+			tx.LockTime = uint32(d.Parent.MTP())
+			tx.TxIn[0].Sequence = 0xfffffffe
+			tx.Version = 1
+		}), 0)
 		return true
 	})
 	witnessSpend := func(x *ctx) (chaingen.Spendable, bool) {
